@@ -15,6 +15,12 @@ def _walk_expr(e, f):
             f.add("tuple_whole_use")
         if ty == "arr":
             f.add("affine_array")
+    elif k == "ifx":
+        f.add("cond_expr")
+        if e[2][0] == "ifx" or e[3][0] == "ifx":
+            f.add("cond_expr_nested")
+        for x in e[1:]:
+            _walk_expr(x, f)
     elif k == "tup":
         f.add("tuple_display")
         for x in e[1]:
@@ -26,6 +32,10 @@ def _walk_expr(e, f):
             f.add("borrowing_call")
         if e[1] in ("measure", "discard", "own", "own_t", "own_s", "use_arr", "thru", "bor_own", "S"):
             f.add("owned_call")
+        from gen_prog import SIGS
+        for (m, _), a in zip(SIGS[e[1]][0], e[2]):
+            if a[0] == "ifx":
+                f.add("cond_expr_as_borrowed_arg" if m == "bor" else "cond_expr_as_owned_arg")
         if any(a[0] in ("call", "new", "tup") for a in e[2]):
             f.add("nested_call_argument")
         for x in e[2]:
@@ -38,6 +48,8 @@ def _walk(ss, f, loops, depth, types):
         if depth >= 3:
             f.add("nesting_depth_ge_3")
         if k == "assign":
+            if s[2][0] == "ifx":
+                f.add("cond_expr_bound_to_name")
             _walk_expr(s[2], f)
             if len(s[1]) > 1:
                 f.add("tuple_unpack")
@@ -56,6 +68,8 @@ def _walk(ss, f, loops, depth, types):
             if depth > 0:
                 f.add("early_return")
             if s[1] is not None:
+                if s[1][0] == "ifx" or (s[1][0] == "tup" and any(x[0] == "ifx" for x in s[1][1])):
+                    f.add("cond_expr_returned")
                 _walk_expr(s[1], f)
         elif k == "if":
             f.add("if")
